@@ -83,6 +83,7 @@ def check(ctx):
         "which of two conflicting productions the LALR table selects for `@(x)` alone (checked as delivered: list_of_strs_or_callables)",
     ]
     ctx.rule("R1", "every production of subproc_atom has an action that assigns the delivery mode on every path, and each source form has the documented (helper, mode) pair; the assembler applies exactly one wrapper per mode", floor=25)
+    ctx.rule("R7", "the @() helper delivers one argument per element: a scalar becomes a one-element list, an iterable is mapped element by element with nothing filtered, merged or reordered", floor=3)
     ctx.rule("R2", "values containing an @()/$() part are not globbed, expanded or split again on their way to the argument list", floor=2)
     ctx.rule("R3", "@$() output is split with the shell lexer only", floor=2)
     ctx.rule("R6", "the `$VAR` expansion of non-raw literals is one positional pass over the references of the original text", floor=2)
@@ -205,8 +206,46 @@ def check(ctx):
     adefs = df.all_defs(ab)
     src_names = names_defined_by(ab, lambda v: "self._source_slice" in unparse(v), adefs)
     consts = [c for c in calls_in(ab) if call_name(c) == "ast.const_str"]
-    ok = len(src_names) == 1 and len(adefs[next(iter(src_names))]) == 1 and len(consts) == 1 and any(unparse(k.value) in src_names for k in consts[0].keywords if k.arg == "s") 
+    # the constant's text is the slice: named first (`s = self._source_slice(..)`, the one definition of that name) or written in place
+    ok = len(consts) == 1 and any((unparse(k.value) in src_names and len(adefs[unparse(k.value)]) == 1) or (not isinstance(k.value, ast.Name) and "self._source_slice" in unparse(k.value)) for k in consts[0].keywords if k.arg == "s")
     ctx.ob("R1", f"{BP}:BaseParser._append_subproc_bang", "text after a macro `!` becomes one constant taken from the source slice", ok, key="macro-tail")
+
+    # ------------------------------------------------------------------ R7
+    from ..engine import dtable as _dt
+
+    bi = ctx.repo.module(BI)
+    lo = bi.func("list_of_strs_or_callables")
+    xpar = param_name(lo, 0, skip_self=False)
+    n7 = 0
+    for p_ in _dt.paths(lo, loops="skip"):
+        if p_.outcome != "return" or not _dt.feasible(p_):
+            continue
+        n7 += 1
+        v = p_.value
+        why = None
+
+        def from_x(e):
+            return any(isinstance(n_, ast.Name) and n_.id == xpar for n_ in ast.walk(e))
+
+        if isinstance(v, ast.List) and len(v.elts) == 1 and not isinstance(v.elts[0], ast.Starred) and from_x(v.elts[0]):
+            shape = "one-element list of the value"
+        elif isinstance(v, ast.Call) and call_name(v) == "list" and len(v.args) == 1 and isinstance(v.args[0], ast.Call) and call_name(v.args[0]) == "map" and len(v.args[0].args) == 2 and isinstance(v.args[0].args[1], ast.Name) and v.args[0].args[1].id == xpar:
+            shape = "element-wise map over the value"
+        elif isinstance(v, ast.ListComp) and len(v.generators) == 1 and not v.generators[0].ifs and isinstance(v.generators[0].iter, ast.Name) and v.generators[0].iter.id == xpar and isinstance(v.generators[0].target, ast.Name) and any(isinstance(n_, ast.Name) and n_.id == v.generators[0].target.id for n_ in ast.walk(v.elt)):
+            shape = "element-wise comprehension over the value"
+        else:
+            shape, why = None, f"`{short(v, 70)}` is neither `[f(x)]` nor an unfiltered element-wise map of `{xpar}`"
+        ctx.ob("R7", f"{BI}:list_of_strs_or_callables", f"under [{'; '.join(p_.cond_texts())[:90]}] the result is a {shape or 'list with one entry per element'}", why is None, key=f"inject-helper|not-elementwise|{short(v, 40)}", where=loc(p_.node) if p_.node is not None else loc(lo), detail=why)
+    if n7 < 3:
+        raise AnalysisError(f"{BI}:list_of_strs_or_callables: only {n7} return paths enumerated")
+    es = bi.func("ensure_str_or_callable")
+    for p_ in _dt.paths(es, loops="skip"):
+        if p_.outcome != "return" or not _dt.feasible(p_):
+            continue
+        xp_ = param_name(es, 0, skip_self=False)
+        v = p_.value
+        ok = (isinstance(v, ast.Name) and v.id == xp_) or (isinstance(v, ast.Call) and len(v.args) >= 1 and isinstance(v.args[0], ast.Name) and v.args[0].id == xp_ and not v.keywords[1:]) or (isinstance(v, ast.Call) and isinstance(v.func, ast.Attribute) and isinstance(v.func.value, ast.Name) and v.func.value.id == xp_)
+        ctx.ob("R7", f"{BI}:ensure_str_or_callable", f"`{short(v, 50)}`: an element is delivered as itself or as one conversion of itself", ok, key=f"inject-elem|{short(v, 30)}", where=loc(p_.node) if p_.node is not None else loc(es))
 
     # ------------------------------------------------------------------ R2
     bi = ctx.repo.module(BI)
@@ -520,4 +559,5 @@ META = {
     "themselves (tokenizer regexes, literal_eval) are not decided.",
     "note": "Decides the listed structural clauses, not the behaviour. The grammar is read by importing "
     "xonsh.parsers from the analysed tree in a helper subprocess (static initialisers only; nothing is parsed).",
+    "more": 'Also decided: every return path of the @() helper is a one-element list of the value or an unfiltered element-wise map over it.',
 }
